@@ -101,7 +101,7 @@ pub fn ints_kind(r: &mut Rng, kind: u32, len: usize, mask: u64) -> Vec<u64> {
         2 => { let m = 1 + r.below(300); let base = if r.bool() { 0 } else { r.next() & (mask >> 1) }; (0..len).map(|_| (base + r.below(m)) & mask).collect() }
         3 => (0..len).map(|_| r.next() & mask).collect(),
         4 => (0..len).map(|_| if r.chance(1, 50) { r.next() & mask } else { r.below(16) }).collect(),
-        5 => (0..len).map(|_| *r.pick(&[0u64, 1, mask, mask - 1, mask >> 1, (mask >> 1) + 1])).collect(),
+        5 => (0..len).map(|_| *r.pick(&[0u64, 1 & mask, mask, mask.saturating_sub(1), mask >> 1, ((mask >> 1) + 1) & mask])).collect(),
         6 => { let w = 1 + r.below(64); let m = if w == 64 { u64::MAX } else { (1u64 << w) - 1 }; (0..len).map(|i| if i == 0 { m & mask } else { r.next() & m & mask }).collect() }
         7 => { let mut cur = r.next() & (mask >> 2); (0..len).map(|_| { cur = cur.wrapping_add(r.below(5)) & mask; cur }).collect() }
         _ => (0..len).map(|i| if i % 2 == 0 { 0 } else { mask }).collect(),
